@@ -26,7 +26,7 @@ theorem range_prefix (a b : List Ev)
   rw [List.map_append, List.length_append, ← List.range'_append (step := 1)] at h
   exact List.append_inj_left h (by simp)
 
-theorem seqInv_step (s : St) (op : Op) (h : SeqInv s) : SeqInv (step s op) := by
+theorem seqInv_step (c : Bool) (s : St) (op : Op) (h : SeqInv s) : SeqInv (step c s op) := by
   unfold SeqInv allEv at *
   cases op with
   | begin => by_cases h0 : s.depth = 0 <;> simp [step, h0, h]
@@ -53,10 +53,10 @@ theorem seqInv_step (s : St) (op : Op) (h : SeqInv s) : SeqInv (step s op) := by
     have hp := range_prefix s.durable s.uncommitted h
     simp [step, hp]
 
-theorem seqInv_run (ops : List Op) (s : St) (h : SeqInv s) : SeqInv (run s ops) := by
+theorem seqInv_run (c : Bool) (ops : List Op) (s : St) (h : SeqInv s) : SeqInv (run c s ops) := by
   induction ops generalizing s with
   | nil => exact h
-  | cons op rest ih => exact ih (step s op) (seqInv_step s op h)
+  | cons op rest ih => exact ih (step c s op) (seqInv_step c s op h)
 
 /-! ### publication -/
 
@@ -69,7 +69,7 @@ def PubInv (s : St) : Prop :=
 theorem pubInv_init : PubInv St.init := by
   refine ⟨fun _ => by simp [St.init], fun _ => ⟨[], [], ?_, ?_, ?_⟩⟩ <;> simp [St.init]
 
-theorem pubInv_step (s : St) (op : Op) (h : PubInv s) : PubInv (step s op) := by
+theorem pubInv_step (c : Bool) (s : St) (op : Op) (h : PubInv s) : PubInv (step c s op) := by
   obtain ⟨hz, hp⟩ := h
   cases op with
   | begin =>
@@ -174,7 +174,10 @@ theorem pubInv_step (s : St) (op : Op) (h : PubInv s) : PubInv (step s op) := by
         have hs' : s.swallowed = false := by simpa [step, h0, h1] using hs
         obtain ⟨d1, d2, hd, hpub, _⟩ := hp hs'
         refine ⟨d1, d2, by simpa [step, h0, h1] using hd, by simpa [step, h0, h1] using hpub, ?_⟩
-        intro ht; simp [step, h0, h1] at ht
+        intro ht
+        have hc : c = true := by simpa [step, h0, h1] using ht
+        subst hc
+        simp [step, h0, h1]
   | crash =>
     refine ⟨by simp [step], ?_⟩
     intro hs
@@ -183,13 +186,13 @@ theorem pubInv_step (s : St) (op : Op) (h : PubInv s) : PubInv (step s op) := by
     refine ⟨d1, d2, by simpa [step] using hd, by simpa [step] using hpub, ?_⟩
     intro _; simp [step]
 
-theorem pubInv_run (ops : List Op) (s : St) (h : PubInv s) : PubInv (run s ops) := by
+theorem pubInv_run (c : Bool) (ops : List Op) (s : St) (h : PubInv s) : PubInv (run c s ops) := by
   induction ops generalizing s with
   | nil => exact h
-  | cons op rest ih => exact ih (step s op) (pubInv_step s op h)
+  | cons op rest ih => exact ih (step c s op) (pubInv_step c s op h)
 
 /-- `swallowed` is sticky -/
-theorem swallowed_step (s : St) (op : Op) (h : s.swallowed = true) : (step s op).swallowed = true := by
+theorem swallowed_step (c : Bool) (s : St) (op : Op) (h : s.swallowed = true) : (step c s op).swallowed = true := by
   cases op with
   | begin => by_cases h0 : s.depth = 0 <;> simp [step, h0, h]
   | append tag => by_cases h0 : s.depth = 0 <;> simp [step, h0, h]
@@ -198,12 +201,30 @@ theorem swallowed_step (s : St) (op : Op) (h : s.swallowed = true) : (step s op)
   | abort => by_cases h0 : s.depth = 0 <;> by_cases h1 : s.depth = 1 <;> simp [step, h0, h1, h]
   | crash => simp [step, h]
 
-theorem swallowed_run (ops : List Op) (s : St) (h : s.swallowed = true) : (run s ops).swallowed = true := by
+theorem swallowed_run (c : Bool) (ops : List Op) (s : St) (h : s.swallowed = true) : (run c s ops).swallowed = true := by
   induction ops generalizing s with
   | nil => exact h
-  | cons op rest ih => exact ih (step s op) (swallowed_step s op h)
+  | cons op rest ih => exact ih (step c s op) (swallowed_step c s op h)
 
-theorem run_append (s : St) (a b : List Op) : run s (a ++ b) = run (run s a) b := by
+/-- when the inner-block branch of abort clears the queue, the queue is never tainted -/
+theorem clean_step (s : St) (op : Op) (h : s.tainted = false ∧ s.swallowed = false) :
+    (step true s op).tainted = false ∧ (step true s op).swallowed = false := by
+  obtain ⟨ht, hs⟩ := h
+  cases op with
+  | begin => by_cases h0 : s.depth = 0 <;> simp [step, h0, ht, hs]
+  | append tag => by_cases h0 : s.depth = 0 <;> simp [step, h0, ht, hs]
+  | write tag => by_cases h0 : s.depth = 0 <;> simp [step, h0, ht, hs]
+  | commit => by_cases h0 : s.depth = 0 <;> by_cases h1 : s.depth = 1 <;> simp [step, h0, h1, ht, hs]
+  | abort => by_cases h0 : s.depth = 0 <;> by_cases h1 : s.depth = 1 <;> simp [step, h0, h1, ht, hs]
+  | crash => simp [step, hs]
+
+theorem clean_run (ops : List Op) (s : St) (h : s.tainted = false ∧ s.swallowed = false) :
+    (run true s ops).tainted = false ∧ (run true s ops).swallowed = false := by
+  induction ops generalizing s with
+  | nil => exact h
+  | cons op rest ih => exact ih (step true s op) (clean_step s op h)
+
+theorem run_append (c : Bool) (s : St) (a b : List Op) : run c s (a ++ b) = run c (run c s a) b := by
   simp [run, List.foldl_append]
 
 /-! ### flat blocks -/
@@ -226,30 +247,30 @@ def wTags : List Op → List Nat
   | _ :: rest => wTags rest
 
 /-- a flat body inside a block only extends the connection's pending work and the publication queue -/
-theorem run_flat (body : List Op) (s : St) (hd : s.depth ≠ 0) (hf : body.all Op.isFlat = true) :
-    run s body = { s with uncommitted := s.uncommitted ++ mkEvs (nextSeq s) body,
-                          pending := s.pending ++ mkEvs (nextSeq s) body,
-                          wUncommitted := s.wUncommitted ++ wTags body } := by
+theorem run_flat (c : Bool) (body : List Op) (s : St) (hd : s.depth ≠ 0) (hf : body.all Op.isFlat = true) :
+    run c s body = { s with uncommitted := s.uncommitted ++ mkEvs (nextSeq s) body,
+                            pending := s.pending ++ mkEvs (nextSeq s) body,
+                            wUncommitted := s.wUncommitted ++ wTags body } := by
   induction body generalizing s with
   | nil => simp [run, mkEvs, wTags]
   | cons op rest ih =>
     simp only [List.all_cons, Bool.and_eq_true] at hf
     cases op with
     | append t =>
-      have hstep : step s (.append t) = { s with uncommitted := s.uncommitted ++ [{ seq := nextSeq s, tag := t }],
-                                                  pending := s.pending ++ [{ seq := nextSeq s, tag := t }] } := by
+      have hstep : step c s (.append t) = { s with uncommitted := s.uncommitted ++ [{ seq := nextSeq s, tag := t }],
+                                                    pending := s.pending ++ [{ seq := nextSeq s, tag := t }] } := by
         simp [step, hd]
-      have hn : nextSeq (step s (.append t)) = nextSeq s + 1 := by
+      have hn : nextSeq (step c s (.append t)) = nextSeq s + 1 := by
         rw [hstep]; simp [nextSeq]; omega
-      have := ih (step s (.append t)) (by rw [hstep]; exact hd) hf.2
+      have := ih (step c s (.append t)) (by rw [hstep]; exact hd) hf.2
       simp only [run, List.foldl_cons] at this ⊢
       rw [this, hn, hstep]
       simp [mkEvs, wTags, List.append_assoc]
     | write t =>
-      have hstep : step s (.write t) = { s with wUncommitted := s.wUncommitted ++ [t] } := by
+      have hstep : step c s (.write t) = { s with wUncommitted := s.wUncommitted ++ [t] } := by
         simp [step, hd]
-      have hn : nextSeq (step s (.write t)) = nextSeq s := by rw [hstep]; simp [nextSeq]
-      have := ih (step s (.write t)) (by rw [hstep]; exact hd) hf.2
+      have hn : nextSeq (step c s (.write t)) = nextSeq s := by rw [hstep]; simp [nextSeq]
+      have := ih (step c s (.write t)) (by rw [hstep]; exact hd) hf.2
       simp only [run, List.foldl_cons] at this ⊢
       rw [this, hn, hstep]
       simp [mkEvs, wTags, List.append_assoc]
